@@ -810,6 +810,9 @@ func (r *Run) opAdvance(st Step) {
 	if st.V != "" {
 		// targeted: V = kind list, D = offset in ms relative to the selected credential's expiry instant
 		c := r.L.Select(st.G, strings.Split(st.V, ",")...)
+		if st.p("from_end") != "" {
+			c = r.L.SelectFromEnd(st.G, strings.Split(st.V, ",")...)
+		}
 		if c == nil || c.Life <= 0 {
 			r.logf("advance(target %s): no credential with a finite lifetime", st.V)
 			return
